@@ -397,7 +397,7 @@ Violations(q, o) ==
   \cup (IF q.opt.keepint => \E k \in K : IntrinsicOnly(covs[k].type) THEN {} ELSE {"keep-intrinsic"})
   \cup (IF ~q.opt.aniso => \A k \in K : ~Aniso(covs[k]) THEN {} ELSE {"auth-aniso"})
   \cup (IF q.opt.iso2d /\ nd >= 2 => \A k \in K : Ranged(covs[k]) => covs[k].anis2d <= TolIso THEN {} ELSE {"lock-iso2d"})
-  \cup (IF ~q.opt.rot /\ nd >= 2 => \A k \in K : Aniso(covs[k]) => AxisOnRef(covs[k], nd) THEN {} ELSE {"auth-rotation"})
+  \cup (IF ~q.opt.rot /\ nd >= 2 /\ FirstDirHorizontal(q) => \A k \in K : Aniso(covs[k]) => AxisOnRef(covs[k], nd) THEN {} ELSE {"auth-rotation"})
   \cup (IF q.opt.samerot /\ nd >= 2 => \A k \in K : \A l \in K : (Aniso(covs[k]) /\ Aniso(covs[l])) => SameRotation(covs[k], covs[l], nd)
         THEN {} ELSE {"lock-samerot"})
   \cup (IF (q.opt.rot2d \/ q.opt.no3d) /\ nd = 3 /\ FirstDirHorizontal(q) => \A k \in K : Aniso(covs[k]) => AboutZ(covs[k])
